@@ -26,11 +26,18 @@ def cases(tier, seed):
             for s in (None, True):
                 for Pu, vu in (("day", "km/s"), ("yr", "m/s")):
                     yield f"{pt_}/{cK}/{s}/{Pu}/{vu}", {"pt": pt_, "no": 0, "customK": cK, "s": s, "Pu": Pu, "vu": vu, "seed": int(seed) + 5, "layout": "single"}
+    # an explicit reference epoch given in a non-TCB time scale (the kernel's epoch number and the samples' t_ref must be the same instant)
+    for pt_ in (1, 2):
+        yield f"{pt_}/tref-utc", {"pt": pt_, "no": 0, "customK": False, "s": None, "Pu": "day", "vu": "km/s", "seed": int(seed) + 5, "layout": "single-tref-utc"}
     yield "offsets", {"pt": 1, "no": 1, "customK": False, "s": None, "Pu": "day", "vu": "km/s", "seed": int(seed) + 5, "layout": "disjoint"}
 
 
 def nontrivial(inp):
     return True
+
+
+def priority(inp):
+    return 0 if inp["layout"] != "single" else 1
 
 
 def check(inp):
@@ -93,5 +100,17 @@ def check(inp):
             lab1 = M[len(srcs[0]):, :] @ x
             if not np.allclose(rv, lab1, rtol=1e-7, atol=1e-7 * max(1.0, np.abs(lab1).max())):
                 bad("get_orbit", "survey-offsets-representable-in-the-orbit", row=r)
+                break
+    if inp["no"] == 0 and not fails:
+        # call history on ONE samples object: orbits were built above; now K < 0 rows are wrapped in place - every row must still denote the
+        # same curve, and the orbit built afterwards must be the orbit of the row as it now stands
+        before = [post.get_orbit(r).radial_velocity(data.t).to_value(vu) for r in range(n)]
+        neg = int(np.sum(post["K"].value < 0))
+        post.wrap_K()
+        for r in range(n):
+            after = post.get_orbit(r).radial_velocity(data.t).to_value(vu)
+            if not np.allclose(after, before[r], rtol=1e-9, atol=1e-9 * max(1.0, np.abs(before[r]).max())):
+                bad("get_orbit", "same-rv-curve-after-wrap_K-on-the-same-object[call-history]", row=r, n_negative_K=neg,
+                    maxdiff=float(np.max(np.abs(after - before[r]))))
                 break
     return fails
